@@ -5,6 +5,8 @@ import (
 	"context"
 	"encoding/hex"
 	"fmt"
+	"os"
+	"os/exec"
 	"sort"
 	"strings"
 	"time"
@@ -639,8 +641,37 @@ func C05(tier rt.Tier) int {
 			{name: "nested-3rounds", paths: nestedRound, vals: []string{"x", "y"}, rounds: 3, txnOps: 2, maxTxns: 3, depth: 12, c05: true},
 		}
 	}
+	if rt.SubRun {
+		// variant build with maxPruneNodes = 2: the prune's delete stream consists of many small
+		// batches, so crash points BETWEEN node-delete batches exist (with 1000 there is one batch)
+		runs = []roundCfg{
+			{name: "prune-batch-2/prefixfree-3rounds", paths: pfPaths[:3], vals: []string{"x"}, rounds: 3, txnOps: 2, maxTxns: 1, depth: 9, c05: true},
+			{name: "prune-batch-2/nested-2rounds", paths: nestedRound[:4], vals: []string{"x"}, rounds: 2, txnOps: 2, maxTxns: 2, depth: 8, c05: true},
+		}
+		if tier == rt.Thorough {
+			runs[0].paths, runs[0].maxTxns, runs[0].rounds, runs[0].depth = pfPaths[:4], 2, 4, 14
+			runs[1].rounds, runs[1].depth = 3, 12
+		}
+	}
 	for _, c := range runs {
 		runRounds(rep, c, time.Now().Add(per), agg)
+	}
+	if rt.SubRun {
+		rep.Set("prunes_executed", agg.prunes)
+		rep.Set("prune_crash_points_explored", agg.pruneCrashPoints)
+		return rep.Dump()
+	}
+	if variant := os.Args[0] + ".prune2"; rt.Replay == nil {
+		if _, err := os.Stat(variant); err == nil {
+			out, err := exec.Command(variant, "C05", "--sub", string(tier)).Output()
+			if err != nil {
+				rt.HarnessError("variant build prune2: %v", err)
+			}
+			rep.Merge("maxPruneNodes=2: ", out)
+			rep.Assumption("sub-runs prefixed 'prune-batch-2' come from a second build in which the local constant maxPruneNodes (1000) of PruneBelowVersion is 2 (changed through the build overlay, nothing else differs)")
+		} else {
+			rep.Set("small_prune_batch_variant", "not built")
+		}
 	}
 	rep.Set("prunes_executed", agg.prunes)
 	rep.Set("prune_crash_points_explored", agg.pruneCrashPoints)
